@@ -646,7 +646,7 @@ func repeatPart(c *vf.Ctx, u *refsmb.Universe, t *smbgen.Tally) {
 				baseCls = "base=full-with-all-ones-integers"
 			}
 			// ... and, the inputs being two fixed assignments and a short history, by WHAT comes out: the outcomes
-			// (a digest of base, history and the bytes/error returned) seen on the unchanged tree are committed
+			// (a digest of base, history, the bytes returned and WHETHER an error was returned - never its text) seen on the unchanged tree are committed
 			// in known_repeat_outcomes.json; the same obligation failing with another outcome is a different
 			// violation (e.g. a string that grows with every Marshal where, so far, only the blocks doubled).
 			rcheckO := func(sub string, ok bool, outcome string, wit func() string) {
@@ -691,7 +691,7 @@ func repeatPart(c *vf.Ctx, u *refsmb.Universe, t *smbgen.Tally) {
 					case decoded:
 						sub = "marshal-after-unmarshal"
 					}
-					rcheckO(sub, !p && err == nil && bytes.Equal(out, first), fmt.Sprintf("%s|%x|%v|%v", opNames(history), out, err, p), func() string {
+					rcheckO(sub, !p && err == nil && bytes.Equal(out, first), fmt.Sprintf("%s|%x|%v|%v", opNames(history), out, err != nil, p), func() string {
 						return fmt.Sprintf("Message{%s{%s}}: history [%s]: this Marshal returns %s (err=%v %s %s), the first Marshal returned %s",
 							cmd.Name, a.Label(), opNames(history), vf.HexS(out), err, msg, where, vf.HexS(first))
 					})
@@ -702,7 +702,7 @@ func repeatPart(c *vf.Ctx, u *refsmb.Universe, t *smbgen.Tally) {
 						return
 					}
 					ok := !p && err == nil && m.Command != nil && reflect.TypeOf(m.Command).Elem() == cmd.Type
-					rcheckO("unmarshal-own-encoding", ok, fmt.Sprintf("%s|%v|%v|%v", opNames(history), err, p, m.Command != nil && reflect.TypeOf(m.Command).Elem() == cmd.Type), func() string {
+					rcheckO("unmarshal-own-encoding", ok, fmt.Sprintf("%s|%v|%v|%v", opNames(history), err != nil, p, m.Command != nil && reflect.TypeOf(m.Command).Elem() == cmd.Type), func() string {
 						return fmt.Sprintf("Message{%s{%s}}: history [%s]: Unmarshal(%s) = %v %s %s", cmd.Name, a.Label(), opNames(history), vf.HexS(first), err, msg, where)
 					})
 					if ok {
